@@ -16,4 +16,10 @@ CHECKS = {
   "text": "Pool.tla is checked exhaustively by TLC (all interleavings, adversarial choice of the waiter a cond_signal wakes) for every client program of the grammar (threads 1..3, queue 0..2, <=3-4 operations + free, jobs that post) against exactly-once, tryAdd honesty, joinJobs/free postconditions and deadlock freedom. The model is bound to the code: the wake-up primitive at each site is inferred by TLC from executions of the real pool.c recorded under harness/vsched.c, every recorded execution (non-preemptive, seeded random, bounded systematic exploration) is validated line by line against Pool.tla and against the caller-level contract PoolContract.tla, and a TLC counterexample is reported only after its schedule reproduces the failure on the real code.",
   "note": "Trusted: TLC, vsched's serialisation (one step per pthread operation; no spurious wake-ups; data races between sync points not explored here), ASan/UBSan for memory errors on explored schedules. Bounded: configurations and schedule budgets are listed in the evidence; exhaustiveness is per configuration within Pool.tla, not for unbounded client programs.",
  },
+ "C16": {
+  "level": "model_checking",
+  "technique": "TLA+ contract + design spec of the parameter interface (bounds table typed from zstd.h), TLC exhaustive Design=>Contract, TLC-generated histories replayed on the library, every API call monitored by a TLC trace specification",
+  "text": "Params.tla states the contract of set/get/bounds/reset/stage rules over a bounds table written from the documentation constants of zstd.h; ParamsModel.tla is checked exhaustively (8 representative parameters x 10 boundary values x stages x resets, histories of 3 calls). The code is bound to it by executing the complete (parameter x boundary value x stage x object) grid for all 38 compression and 7 decompression parameters on CCtx, CCtx_params and DCtx, TLC-generated histories, and sticky-parameter frame sequences (headers parsed by an independent reader), each call logged with the full read-back snapshot and validated step by step by TLC against ParamsTrace.tla.",
+  "note": "Trusted: TLC; the bounds table in Params.tla (64-bit constants of lib/zstd.h); harness/paramdrv.c's independent frame-header reader. Frames are produced only under cheap parameter sets; extreme values are set/read back but not compressed with. Client rule honoured: no parameter change after a dictionary was loaded (zstd.h).",
+ },
 }
